@@ -21,7 +21,7 @@ RULE = ("plan = frame (0..12 rows quick / 0..40 thorough, 1..4 columns of any ki
         "missing value, a duplicate, ±inf or |x| ≥ 2**53. Distinct = plan hash.")
 CASES = {"quick": 2500, "thorough": 16000}
 
-KINDS = ["f", "i", "b", "s", "s", "u", "d", "t", "td", "o", "oi", "ob", "y"]
+KINDS = ["f", "i", "b", "s", "s", "u", "d", "t", "td", "o", "oi", "ob", "y", "u8", "i8", "f32"]
 
 
 def _np_value(kind, v):
@@ -84,13 +84,18 @@ def _plan(draw, max_rows):
             pairs.append([c["name"], v])
         op["pairs"] = pairs
     elif name in ("slice", "slice_off"):
-        how = draw(st.sampled_from(["sorted", "sorted", "arbitrary", "empty", "none"]))
+        how = draw(st.sampled_from(["sorted", "sorted", "arbitrary", "span", "empty", "none"]))
         if n == 0 or how == "empty":
             op["rows"] = []
         elif how == "none":
             op["rows"] = None
         elif how == "sorted":
             op["rows"] = sorted(set(draw(st.lists(st.integers(0, n - 1), max_size=n))))
+        elif how == "span" and n >= 3:
+            # end points look like a contiguous block (last - first == len - 1), the interior repeats or is out of order
+            m = draw(st.integers(3, n))
+            a0 = draw(st.integers(0, n - m))
+            op["rows"] = [a0] + [draw(st.integers(a0, a0 + m - 1)) for _ in range(m - 2)] + [a0 + m - 1]
         else:
             op["rows"] = draw(st.lists(st.integers(0, n - 1), max_size=n + 2))
         ncol = len(cols) + 1
